@@ -589,11 +589,12 @@ def o_late(ad, a, b, c):
 
 def o_late_tick(ad, a, b, c):
     # one timer pass run late, the next one on time, then a PINGRESP: two PINGREQs can be outstanding at once
-    return [("late", 1 + a % 3), ("fire", 1), ("late", 0), ("fire", 1)] + ([("rx", ad, "PINGRESP")] if b % 4 else [])
+    pre = [("rx", ad, "PINGRESP")] if c % 4 else []          # the PINGREQ before is answered: no abort yet
+    return pre + [("late", 1 + a % 3), ("fire", 1), ("late", 0), ("fire", 1)] + ([("rx", ad, "PINGRESP")] if b % 4 else [])
 
 
 # the same with a reactor that is sometimes late in getting round to its delayed calls
-T_KA_LATE = G.Table(T_KA.rows + [(6, o_late), (8, o_late_tick)])
+T_KA_LATE = G.Table(T_KA.rows + [(6, o_late), (14, o_late_tick)])
 
 
 class C15(SessionProp):
